@@ -13,4 +13,9 @@ CONSTANTS
   AllowAbort = FALSE
   ForeignRelease = FALSE
   OrderedArrival = FALSE
+  AllowPause = FALSE
+  AllowIoError = FALSE
+  AllowResume = FALSE
+  ForgetUncreated = TRUE
+  MaxInterrupts = 3
 CHECK_DEADLOCK FALSE
